@@ -69,6 +69,16 @@ CLAIMED = {
                 "are exported (obj2dict recursion), their existence in A's output and the rendering of the links are covered by bounded real runs only (not counted).",
         "note": "Partial: round-trip of the entity set is bounded; library raise sets and urljoin's value are assumptions.",
     },
+    "C17": {
+        "engines": ["A", "S", "Bd"],
+        "technique": "contract-based deductive verification: loop-invariant VCs (fold specification over the merged listing, uninterpreted file-system predicates) for the "
+                     "walk of get_page_tree and a postcondition on PageNode.path, z3; structural obligations on the listing/merge statements; bounded real runs over page trees",
+        "text": "Narrow claim. Proved for every listing: subpages and files are the entry-by-entry fold of the merged list in order (skip rules, sub-tree / page / file "
+                "classification, a title-less page is skipped without affecting its siblings), only the 'listed entry does not exist' ValueError escapes; output path is "
+                "<location>/<stem>.html. Copying (writeout), aliases, relative links and navigation rendering are covered by bounded real runs over 8 fixed and seeded random "
+                "page directories (not counted).",
+        "note": "Partial: the merge expression is recognised structurally; copying and links are bounded only.",
+    },
     "C14": {
         "engines": ["A", "Bd"],
         "technique": "contract-based deductive verification: VCs from the AST of FortranLine.__analyse (array-encoded line, bounded column windows) against "
@@ -189,4 +199,4 @@ CLAIMED = {
     },
 }
 _NB = "no obligations built yet for this property in the current commit (planned in DESIGN.md section 6; technique not switched)"
-NOT_APPLICABLE = {p: _NB for p in ["C17", "C18"]}
+NOT_APPLICABLE = {p: _NB for p in ["C18"]}
